@@ -47,7 +47,10 @@ type BtcWallet struct {
 	FundingLayout func() (inputs int, swapIndex int, changeOuts int)
 	// ChangeValue overrides the value of change outputs (0 = derived).
 	ChangeValue int64
-	Opened      []string // txids of funding transactions
+	// SameScriptExtra, if set, returns the value of an additional output paying the swap address (a wallet
+	// batching a second send to the same address) and whether it goes before the swap output; 0 = none.
+	SameScriptExtra func(amount uint64) (value int64, before bool)
+	Opened          []string // txids of funding transactions
 }
 
 func newBtcWallet(n *Node) *BtcWallet {
@@ -123,9 +126,20 @@ func (a *btcAdapter) CreateOpeningTransaction(p *swap.OpeningParams) (string, st
 	if swapIdx >= total {
 		swapIdx = total - 1
 	}
+	var extraVal int64
+	var extraBefore bool
+	if b.SameScriptExtra != nil {
+		extraVal, extraBefore = b.SameScriptExtra(p.Amount)
+	}
 	for i := 0; i < total; i++ {
 		if i == swapIdx {
+			if extraVal > 0 && extraBefore {
+				tx.AddTxOut(wire.NewTxOut(extraVal, pk))
+			}
 			tx.AddTxOut(wire.NewTxOut(int64(p.Amount), pk))
+			if extraVal > 0 && !extraBefore {
+				tx.AddTxOut(wire.NewTxOut(extraVal, pk))
+			}
 			continue
 		}
 		_, cs := b.newAddr()
